@@ -1,6 +1,7 @@
 From Coq Require Extraction.
 From Coq Require Import ExtrOcamlBasic.
-From NV Require Import Base.Witness Async.Framing Bgzf.Vpos Bgzf.Gzi Bgzf.ReaderOps Async.Reader.
-From NV Require Bgzf.Frame Bgzf.Writer Async.Writer.
+From NV Require Import Base.Witness Async.Framing Bgzf.Vpos Bgzf.Gzi Bgzf.ReaderOps Async.Reader Async.PollSeek.
+From NV Require Bgzf.Frame Bgzf.Writer Async.Writer Io.Source Io.ReadExact Io.Run Async.ReadExact.
 Extraction "model.ml" nv_types_witness async_obs_case sync_obs_case
-  async_reader_case sync_reader_case pack vcomp vuncomp NV.Async.Writer.async_writer_case.
+  async_reader_xcase sync_reader_xcase pack vcomp vuncomp NV.Async.Writer.async_writer_case
+  NV.Async.ReadExact.async_bam_case NV.Async.ReadExact.sync_bam_case.
